@@ -14,6 +14,7 @@ THEOREMS = [
     "c15_closers_exactly_once", "c15_workers_done_before_stopped", "c15_phase_order",
     "c15_sem_held_exactly_while_running", "c15_slot_interval", "c15_no_panic",
     "c15_no_lost_wakeup", "c15_release_never_blocks", "c15_driver_stays_reachable",
+    "c15_stop_returns_partial", "c15_later_stop_returns",
 ]
 # the unrestricted reading "every worker, whenever registered" is false of the
 # model (and of the code: summary.late_worker_replay): boundary of the
@@ -43,7 +44,9 @@ RULE = ("controlled: random operation sequences (RunTask, RunAsyncTask, RunLimit
         "model, event history judged by the oracle.  non-trivial = a Stop or Quiesce was called while a task ran, a worker "
         "lived or a limited call waited; distinct by operation list and capacities.  free: 3-7 goroutines x 4-17 random API "
         "calls (about 1 body in 7 panics) with random pauses and NumTasks()==0 probes racing with 1-3 Stop and 0-1 Quiesce calls, "
-        "built with -race, judged by the oracle only; "
+        "built with -race, judged by the oracle only; one history in three is a 'storm' (128-511 WithCancelOnQuiesce contexts, 1-2 "
+        "goroutines calling RunTask back to back from just before the first Stop/Quiesce until refused, bodies that linger when "
+        "they find ShouldQuiesce closed: a call let in after quiescing was set slips past the drain and is seen running after stop); "
         "non-trivial = at least 20 events; distinct by event history.")
 
 
@@ -119,7 +122,23 @@ def run(tier, seed):
         "controlled observations are taken after the real Stopper reached the state a bookkeeping twin in the harness predicts (polling, 20 s time-out) plus a 150 us grace period; what is compared with the Coq model is always the real observation",
         "ErrUnavailable vs context.Canceled when both select cases are ready is Go's choice: both accepted",
     ]
-    ok, detail = vlib.proof_stage(res, "C15", THEOREMS, refuted=REFUTED)
+    # two C15 checks may run at once (against different trees: seedretest,
+    # bentest): give the Print Assumptions probe a name of its own, as
+    # vlib.eval_cases does for the case files, and remove it afterwards
+    tag = "_p%d" % os.getpid()
+    orig_pa = vlib.print_assumptions
+    vlib.print_assumptions = lambda pid, module, theorems, tag_="": orig_pa(pid, module, theorems, tag=tag)
+    try:
+        ok, detail = vlib.proof_stage(res, "C15", THEOREMS, refuted=REFUTED)
+    finally:
+        vlib.print_assumptions = orig_pa
+        import glob
+        for f in glob.glob(os.path.join(vlib.COQ, "cases", "Assum_C15%s.*" % tag)) + \
+                glob.glob(os.path.join(vlib.COQ, "cases", ".Assum_C15%s.*" % tag)):
+            try:
+                os.remove(f)
+            except OSError:
+                pass
     if not ok:
         res.violation(None, "proof obligations of C15 broken: %s" % detail.get("broken"),
                       {"kind": "proof-obligation", "detail": detail}, no_input=True)
